@@ -25,7 +25,7 @@ T_QUICK, T_THOROUGH = 70, 1500
 FLOORS = {"hybrid_roundtrips": 4000, "json_roundtrips": 4000, "json_text_roundtrips": 1500,
           "fields_compared": 15000, "renamed_fields_compared": 3000, "nested_renamed_compared": 800,
           "fields_at_default": 2500, "elision_asserted": 2000, "omitted_field_took_default": 1500,
-          "empty_dynamic_arrays": 300, "ref_fields_nonnull": 300, "isolation_writes": 2000, "subclass_roundtrips": 400, "batch_roundtrips": 400, "skip_and_store_roundtrips": 300, "values_next_to_the_default": 500, "json_types_with_readonly_fields": 300,
+          "empty_dynamic_arrays": 300, "ref_fields_nonnull": 300, "isolation_writes": 2000, "subclass_roundtrips": 400, "batch_roundtrips": 400, "dictionaries_used_after_later_writes": 400, "derived_entry_roundtrips": 150, "skip_and_store_roundtrips": 300, "values_next_to_the_default": 500, "json_types_with_readonly_fields": 300,
           "seen:json:st": 500, "seen:json:ar": 500, "seen:json:str": 300}
 RULE = ("A: generated hybrid class families (1-3 levels; scalars, strings, numeric arrays static/dynamic 1-2 D, nested "
         "hybrids, references to hybrids, renamed fields, default / default_factory) with values deliberately equal to "
@@ -281,6 +281,10 @@ def run_hybrid(w, rng):
             _batch_roundtrip(w, rng, outer, vg, env, viol, resolve)
         if rng.random() < 0.25 and not seen:
             _skip_store_roundtrip(w, rng, outer, vg, env, viol, resolve)
+        if rng.random() < 0.25 and not seen:
+            _later_writes(w, rng, outer, vg, env, viol, resolve)
+        if rng.random() < 0.1 and not seen:
+            _derived_entry_roundtrip(w, rng, env, viol)
         w.case(["hy", [spec_sig(s) for s in specs], sorted(marks), dest],
                sample=dict(info, dict_keys=sorted(d)) if rng.random() < 0.003 else None)
     finally:
@@ -351,6 +355,72 @@ def _batch_roundtrip(w, rng, spec, vg, env, viol, resolve):
     for i, (mv, new) in enumerate(zip(mvs, news)):
         for p, kind, detail in compare_h(spec, mv, new, resolve)[:1]:
             viol(f"batch-rebuilt-differs:{kind}", f"object {i} of {len(objs)}: {p}: {detail}")
+
+
+def _later_writes(w, rng, spec, vg, env, viol, resolve):
+    """The dictionary of an object is a value: what is written to the object AFTER to_dict() (array items, scalars)
+    does not show in the object rebuilt from that dictionary."""
+    try:
+        mv = value_with_defaults(spec, vg, rng, 0.1, [])
+        obj = spec["cls"](**to_kwargs(spec, mv, rng, _buffer=rng.choice([env.buf, None])))
+        d = obj.to_dict()
+        nw = 0
+        for xn, pn, kind, sub, dflt in spec["fields"]:
+            if kind == "arr" and mv[xn].size:
+                a = getattr(obj, pn)
+                idx = tuple(rng.randrange(n_) for n_ in a.shape)
+                a[idx] = a[idx] + 1 if a.dtype.kind == "f" else (a[idx] ^ 1)
+                nw += 1
+            elif kind == "sc":
+                setattr(obj, pn, (mv[xn] + 1 if mv[xn].dtype.kind == "f" else mv[xn] ^ 1).item())
+                nw += 1
+        new = spec["cls"].from_dict(d)
+    except Exception as e:
+        viol(f"later-writes-{exc_kind(e)}", tb(e))
+        return
+    w.count("dictionaries_used_after_later_writes")
+    w.count("later_writes", nw)
+    for p, kind, detail in compare_h(spec, mv, new, resolve)[:1]:
+        viol(f"dictionary-follows-later-writes-to-the-object:{kind}", f"{p}: {detail}")
+
+
+_DER = []
+
+
+def _derived_entry_roundtrip(w, rng, env, viol):
+    """A class keeps a raw field out of its dictionary (_skip_in_to_dict) and stores a derived entry instead
+    (_store_in_to_dict) that its own __init__ takes back: the dictionary form still rebuilds an equal object."""
+    if not _DER:
+        class XvDerived(xo.HybridClass):
+            _xofields = {"raw2": xo.Int64, "k": xo.Int64, "v": xo.Float64[:]}
+            _skip_in_to_dict = ["raw2"]
+            _store_in_to_dict = ["half"]
+
+            def __init__(self, half=None, **kw):
+                if half is not None:
+                    kw["raw2"] = 2 * int(half)
+                super().__init__(**kw)
+
+            @property
+            def half(self):
+                return int(self.raw2) // 2
+        from xv.hybridgen import register
+        _DER.append(register(XvDerived))
+    D = _DER[0]
+    h, k = rng.randint(1, 10 ** 6), rng.randint(1, 100)
+    v = [float(rng.randint(0, 9)) for _ in range(rng.randint(0, 3))]
+    try:
+        o = D(half=h, k=k, v=v, _buffer=rng.choice([env.buf, None]))
+        d = o.to_dict()
+        new = D.from_dict(d)
+    except Exception as e:
+        viol(f"derived-entry-roundtrip-{exc_kind(e)}", tb(e))
+        return
+    w.count("derived_entry_roundtrips")
+    if "half" not in d or "raw2" in d:
+        viol("derived-entry-dictionary-keys", f"{sorted(d)}")
+    if int(new.raw2) != 2 * h or int(new.k) != k or list(new.v) != v:
+        viol("derived-entry-rebuilt-differs", f"raw2={int(new.raw2)} (expected {2 * h}), k={int(new.k)} ({k}), v={list(new.v)} ({v}); dictionary {d!r:.200}")
 
 
 def _skip_store_roundtrip(w, rng, parent, vg, env, viol, resolve):
